@@ -438,6 +438,7 @@ int main(int argc, char** argv)
         else if (a == "--prop") props = next();
         else if (a == "--nmax") cli.prm.nmax = std::atoi(next().c_str());
         else if (a == "--cmax") cli.prm.cmax = std::atoi(next().c_str());
+        else if (a == "--cscale") cli.prm.cscale = std::max(1, std::atoi(next().c_str()));
         else if (a == "--bmax") cli.prm.bmax = std::atoi(next().c_str());
         else if (a == "--depth") cli.prm.depth = std::atoi(next().c_str());
         else if (a == "--arena1") cli.prm.arena1 = std::atoi(next().c_str());
@@ -858,7 +859,7 @@ int main(int argc, char** argv)
        << config_class() << "\",\n";
     js << " \"mode\": \"" << cli.prm.mode << "\", \"props\": \"" << props << "\", \"junk\": " << cli.junk
        << ", \"base\": " << cli.base << ", \"arena1\": " << cli.prm.arena1 << ", \"faults\": " << cli.faults << ",\n";
-    js << " \"nmax\": " << cli.prm.nmax << ", \"cmax\": " << cli.prm.cmax << ", \"bmax\": " << cli.prm.bmax
+    js << " \"nmax\": " << cli.prm.nmax << ", \"cmax\": " << cli.prm.cmax << ", \"cscale\": " << cli.prm.cscale << ", \"bmax\": " << cli.prm.bmax
        << ", \"depth_bound\": " << cli.prm.depth << ",\n";
     js << " \"states\": " << states << ", \"transitions\": " << transitions << ", \"terminal_checks\": " << terminal_checks
        << ", \"fault_runs\": " << fault_runs << ", \"foreign_seen\": " << foreign_pruned << ", \"crashes\": " << crashes
